@@ -32,10 +32,12 @@ var errNoPunch = errors.New("punchHole not supported")
 // punchHole, if non-nil, punches a hole in f from offset to offset+size.
 var punchHole func(file *os.File, offset int64, size int64) error
 
-func (s *storage) delete(br blob.Ref, meta blobMeta) error {
+// delete destroys the pack entry of br. touched reports whether the pack
+// file may have been modified when an error is returned.
+func (s *storage) delete(br blob.Ref, meta blobMeta) (touched bool, err error) {
 	f, err := os.OpenFile(s.filename(meta.file), os.O_RDWR, 0666)
 	if err != nil {
-		return err
+		return false, err
 	}
 	defer f.Close()
 
@@ -44,10 +46,10 @@ func (s *storage) delete(br blob.Ref, meta blobMeta) error {
 	off := meta.offset - int64(k)
 	b := make([]byte, k)
 	if k, err = f.ReadAt(b, off); err != nil {
-		return err
+		return false, err
 	}
 	if b[0] != byte('[') || b[k-1] != byte(']') {
-		return fmt.Errorf("delete: cannot find header surroundings, found %q", b)
+		return false, fmt.Errorf("delete: cannot find header surroundings, found %q", b)
 	}
 	b = b[1 : k-1] // "sha1-xxxxxxxxxxxxxxxxxx nnnn" - everything between []
 	off++
@@ -55,11 +57,11 @@ func (s *storage) delete(br blob.Ref, meta blobMeta) error {
 	// Replace b with "xxxx-000000000"
 	dash := bytes.IndexByte(b, '-')
 	if dash < 0 {
-		return fmt.Errorf("delete: cannot find dash in ref %q", b)
+		return false, fmt.Errorf("delete: cannot find dash in ref %q", b)
 	}
 	space := bytes.IndexByte(b[dash+1:], ' ')
 	if space < 0 {
-		return fmt.Errorf("delete: cannot find space in header %q", b)
+		return false, fmt.Errorf("delete: cannot find space in header %q", b)
 	}
 	for i := range dash {
 		b[i] = 'x'
@@ -69,37 +71,37 @@ func (s *storage) delete(br blob.Ref, meta blobMeta) error {
 	}
 
 	// write back
-	if _, err = f.WriteAt(b, off); err != nil {
-		return err
+	if n, err := f.WriteAt(b, off); err != nil {
+		return n > 0, err
 	}
 	// Make the deletion mark durable before the body is destroyed, so
 	// that no crash can leave a valid header in front of a zeroed body,
 	// and so that an acknowledged removal survives a power loss.
 	if err = f.Sync(); err != nil {
-		return err
+		return true, err
 	}
 
 	// punch hole, if possible
 	if punchHole != nil {
 		err = punchHole(f, meta.offset, int64(meta.size))
 		if err == nil {
-			return nil
+			return true, nil
 		}
 		if !errors.Is(err, errNoPunch) {
-			return err
+			return true, err
 		}
 	}
 
 	// fill with zero
 	n, err := f.Seek(meta.offset, io.SeekStart)
 	if err != nil {
-		return err
+		return true, err
 	}
 	if n != meta.offset {
-		return fmt.Errorf("error seeking to %d: got %d", meta.offset, n)
+		return true, fmt.Errorf("error seeking to %d: got %d", meta.offset, n)
 	}
 	_, err = io.CopyN(f, zeroReader{}, int64(meta.size))
-	return err
+	return true, err
 }
 
 type zeroReader struct{}
